@@ -21,7 +21,7 @@ type Guard struct {
 
 // guardsAt lists the branch edges that dominate block b: edge D->S counts iff
 // S dominates b (or is b) and every other predecessor of S is dominated by S.
-func guardsAt(b *ssa.BasicBlock) []Guard {
+func (p *Program) guardsAt(b *ssa.BasicBlock) []Guard {
 	var out []Guard
 	for d := b.Idom(); d != nil; d = d.Idom() {
 		if len(d.Instrs) == 0 {
@@ -43,6 +43,9 @@ func guardsAt(b *ssa.BasicBlock) []Guard {
 				if pr == d {
 					continue
 				}
+				if p != nil && p.deadEnd(pr) {
+					continue // control never arrives from a block that ends in a no-return call or panic
+				}
 				if pr != s && !s.Dominates(pr) {
 					okEdge = false
 					break
@@ -58,8 +61,8 @@ func guardsAt(b *ssa.BasicBlock) []Guard {
 
 // edgeGuards returns the guards that hold when control leaves block d through
 // successor index k: the guards at d plus the branch itself.
-func edgeGuards(d *ssa.BasicBlock, k int) []Guard {
-	out := guardsAt(d)
+func (p *Program) edgeGuards(d *ssa.BasicBlock, k int) []Guard {
+	out := p.guardsAt(d)
 	if ifi, ok := d.Instrs[len(d.Instrs)-1].(*ssa.If); ok && d.Succs[0] != d.Succs[1] {
 		out = append(out, Guard{If: ifi, Cond: ifi.Cond, Pol: k == 0})
 	}
@@ -181,7 +184,7 @@ func (tb *TB) atomOfRes(g Guard, res func(ssa.Value) ssa.Value) Atom {
 // FactsAt returns the normalised atoms that hold on entry to block b.
 func (tb *TB) FactsAt(b *ssa.BasicBlock) []Atom {
 	var out []Atom
-	for _, g := range guardsAt(b) {
+	for _, g := range tb.p.guardsAt(b) {
 		out = append(out, tb.atomOf(g))
 	}
 	return out
@@ -189,7 +192,7 @@ func (tb *TB) FactsAt(b *ssa.BasicBlock) []Atom {
 
 func (tb *TB) FactsOnEdge(d *ssa.BasicBlock, k int) []Atom {
 	var out []Atom
-	for _, g := range edgeGuards(d, k) {
+	for _, g := range tb.p.edgeGuards(d, k) {
 		out = append(out, tb.atomOf(g))
 	}
 	return out
@@ -239,4 +242,18 @@ func errFactFor(facts []Atom, call ssa.Value, wantNil bool) (Atom, bool) {
 		}
 		return x.V == call
 	})
+}
+
+// deadEnd: control cannot leave the block through its successors because it
+// contains a call to a no-return function (or ends in a panic).
+func (p *Program) deadEnd(b *ssa.BasicBlock) bool {
+	for _, in := range b.Instrs {
+		if p.callNoReturnCached(in) {
+			return true
+		}
+		if _, ok := in.(*ssa.Panic); ok {
+			return true
+		}
+	}
+	return false
 }
